@@ -236,3 +236,26 @@ def fld(d, p):
 def nxt(d, p):
     """offset just after the string that starts at offset p"""
     return p + 4 + len(d[p + 4:p + 4 + val_be(d[p:p + 4])])
+
+
+# ---------------------------------------------------------------------------------------------- ratings and status (C02/C03)
+@recursive('list[opt[str]]->bool', fuel=2)
+def has_some(xs):
+    """some element of a note list is a note (not None)"""
+    return False if len(xs) == 0 else (has_some(xs[:-1]) or xs[-1] is not None)
+
+
+@recursive('list[tuple[str,str]];str->bool', fuel=2)
+def has_level(ts, lvl):
+    """some (level, text) pair of the list has the given level"""
+    return False if len(ts) == 0 else (has_level(ts[:-1], lvl) or ts[-1][0] == lvl)
+
+
+def status_after(s0, any_fail, any_warn):
+    """exit status after rendering notes: failure is sticky, a warning never downgrades a failure (exitcodes: 3/2/0)"""
+    return 3 if (s0 == 3 or any_fail) else (2 if any_warn else s0)
+
+
+@primitive
+def is_blank(s):
+    return len(s.strip()) == 0
